@@ -16,6 +16,7 @@ COMMS = {
     "sell": {"k": "sell", "a": [1, 100], "b": Z},
     "buy": {"k": "buy", "a": [1, 100], "b": Z},
 }
+COMMS_X = {"gouge": {"k": "prop", "a": [3, 10], "b": Z}}  # sinks a levered portfolio through its opening trades
 
 
 def walk_prices(rng, T, lo=8, hi=60, late=False, zero=False):
@@ -71,7 +72,7 @@ def base_prog(rng, T=None, cols=None, comm=None, integer=None, spread=None, capi
         "bt": {
             "capital": capital or rng.choice([10000, 10000, 20000, 5000]),
             "integer": rng.random() < 0.7 if integer is None else integer,
-            "comm": COMMS[comm if comm is not None else rng.choice(list(COMMS))],
+            "comm": {**COMMS, **COMMS_X}[comm if comm is not None else rng.choice(list(COMMS))],
         },
     }
     sp = rng.choice([0, 0, 2]) if spread is None else spread
@@ -187,7 +188,7 @@ def prog_bankrupt(rng, **kw):
     """Leveraged / short portfolios on price paths that do or do not drive the
     value through zero, flat and nested (C16)."""
     kw.setdefault("integer", rng.random() < 0.8)
-    kw.setdefault("comm", rng.choice(["zero", "zero", "fix", "prop"]))
+    kw.setdefault("comm", rng.choice(["zero", "zero", "fix", "prop", "gouge"]))
     prog = base_prog(rng, **kw)
     T = prog["T"]
     cols = prog["cols"]
